@@ -191,16 +191,21 @@ def event_handler(*event_names: str, **event_mappings: str) -> Callable[
     """
 
     def decorator(cls):
+        # Composite behaviour, compose eventually discovered events
+        # (eg. inherited events) with newly specified events. With
+        # multiple inheritance all the bases contribute, the first
+        # ones taking precedence (as for attribute lookup)
+        events = {}
+        for base in reversed(cls.__mro__):
+            events |= getattr(base, '__events__', {})
+        events |= dict(zip(event_names, event_names)) | event_mappings
+
         # For slightly better performance in the whole event system,
         # ignore empty handlers
-        if not event_names and not event_mappings:
+        if not events:
             return cls
 
-        # Composite behaviour, compose eventually discovered events
-        # (eg. inherited events) with newly specified events
-        events = getattr(cls, '__events__', {})
-        cls.__events__ = (events | dict(zip(event_names, event_names))
-                          | event_mappings)
+        cls.__events__ = events
 
         # TODO: manage __slots__ (create a new subclass)
 
